@@ -370,6 +370,14 @@ def main():
         return rc
     except ToolTrouble as e:
         print("TOOL-TROUBLE property=%s: %s" % (pid, e))
+        if ctx.violations:
+            # what the real code was already seen doing stands, whatever broke down afterwards (often because of it)
+            ctx.note("a later part of the check did not complete: %s" % str(e)[:300])
+            rc = ctx.finish("other", {"explanation": "the check recorded %d violation(s) on the real code and then could not complete (%s); "
+                                                      "only the violations are reported, no coverage is claimed" % (len(ctx.violations), str(e)[:200]),
+                                       "incomplete": True}, ["the check did not run to its end"])
+            log("%s %s seed=%d: VIOLATION (check incomplete) in %.1fs" % (pid, tier, seed, time.time() - ctx.t0))
+            return rc
         return 2
     except Exception:
         traceback.print_exc()
